@@ -33,7 +33,7 @@ func (p *propC11) ID() string     { return "C11" }
 func (p *propC11) Engine() string { return "rx" }
 func (p *propC11) Level() string  { return "fault_enumeration" }
 func (p *propC11) Rule() string {
-	return "enumeration: for every stream of the pool (single frames and chains of 2-3 frames) x every entry point x fault kind (cut.eof, cut.eof+data, fail.sticky, fail.with_data) x read policy (full, short k7, one, zk5 = a (0,nil) stutter before every 5-byte read) x every byte offset k in [0,len] (quick: every offset of frames <= 8 KiB; thorough: frames up to 60 KB, every offset of frames <= 32 KiB, structural + 4096-multiples + 2000 seeded offsets above); " +
+	return "enumeration: for every stream of the pool (single frames and chains of 2-3 frames) x every entry point x fault kind (cut.eof, cut.eof+data, fail.sticky, fail.with_data, fail.unexpected_eof = the reader itself reports io.ErrUnexpectedEOF) x read policy (full, short k7, one, zk5 = a (0,nil) stutter before every 5-byte read) x every byte offset k in [0,len] (quick: every offset of frames <= 8 KiB; thorough: frames up to 60 KB, every offset of frames <= 32 KiB, structural + 4096-multiples + 2000 seeded offsets above); " +
 		"key = (entry point, fault kind, structural class of k, policy); non-trivial when the reader actually reached k"
 }
 func (p *propC11) Assumptions() []string {
@@ -49,7 +49,7 @@ func (p *propC11) ProbeNames() []string {
 }
 
 var c11Calls = []string{"Decode", "DecodeChained", "CheckIntegrity", "CheckIntegrityHeader", "DecodeHeader", "DecodeHeaderAndFileID"}
-var c11Kinds = []string{"cut.eof", "cut.eof_with_data", "fail.sticky", "fail.with_data"}
+var c11Kinds = []string{"cut.eof", "cut.eof_with_data", "fail.sticky", "fail.with_data", "fail.unexpected_eof"}
 var c11Plans = []ReadPlan{{Tail: "full"}, {Tail: "k7"}, {Tail: "one"}, {Tail: "zk5"}}
 
 func (p *propC11) Prepare(seed uint64, tier string) int {
@@ -220,6 +220,8 @@ func (p *propC11) Gen(idx int) *Scenario {
 		plan.Fail = &FaultAt{At: k}
 	case "fail.with_data":
 		plan.Fail = &FaultAt{At: k, WithData: true}
+	case "fail.unexpected_eof":
+		plan.Fail = &FaultAt{At: k, Err: "unexpected_eof"}
 	}
 	sc.Tasks = []Task{{ID: 0, Call: c11Calls[ci], In: "m0", Read: plan}}
 	return sc
@@ -294,6 +296,9 @@ func (p *propC11) Check(sc *Scenario, st *Stats) []Violation {
 		kind, k = "fail.sticky", t.Read.Fail.At
 		if t.Read.Fail.WithData {
 			kind = "fail.with_data"
+		}
+		if t.Read.Fail.Err == "unexpected_eof" {
+			kind = "fail.unexpected_eof"
 		}
 	default:
 		return nil
